@@ -61,6 +61,36 @@ def c09(run: Run):
     rules_c09.check(run, program(run))
 
 
+def c10(run: Run):
+    from . import rules_c10
+    rules_c10.check(run, program(run), cyprogram(run), sites(run))
+
+
+def c12(run: Run):
+    from . import rules_c12
+    rules_c12.check(run, program(run), cyprogram(run), sites(run))
+
+
+def c14(run: Run):
+    from . import rules_c14
+    rules_c14.check(run, program(run), cyprogram(run), sites(run))
+
+
+def c15(run: Run):
+    from . import rules_c15
+    rules_c15.check(run, program(run), cyprogram(run), sites(run))
+
+
+def c13(run: Run):
+    from . import rules_c13
+    rules_c13.check(run, program(run))
+
+
+def c16(run: Run):
+    from . import rules_c16
+    rules_c16.check(run, program(run))
+
+
 def c11(run: Run):
     from . import rules_c11
     rules_c11.check(run, program(run), cyprogram(run), sites(run))
@@ -88,6 +118,12 @@ CHECKS = {
     "C07": c07,
     "C08": c08,
     "C09": c09,
+    "C10": c10,
     "C11": c11,
+    "C12": c12,
+    "C13": c13,
+    "C14": c14,
+    "C15": c15,
+    "C16": c16,
     "C19": c19,
 }
